@@ -365,6 +365,12 @@ def copy_value(v, memo):
         return r
     if isinstance(v, tuple):
         return tuple(copy_value(x, memo) for x in v)
+    if type(v).__name__ == "Tensor":          # torch backend: a value copy (no autograd history, no .grad)
+        r = v.detach().clone()
+        if v.requires_grad:
+            r.requires_grad_(True)
+        memo[id(v)] = r
+        return r
     return v            # channels, Python objects: shared (outside the grammar)
 
 
@@ -372,7 +378,7 @@ def fresh_with_state_of(A):
     """a new interpreter holding a copy of A's variable state and parse-time module, no caches"""
     from collections import deque
     from klongpy import KlongInterpreter
-    B = KlongInterpreter()
+    B = KlongInterpreter(backend=getattr(A._backend, "name", None))
     sys_frames = list(B._context._context)[-2:]
     memo = {}
     frames = [copy_value(d, memo) for d in user_frames(A)]
@@ -1005,6 +1011,21 @@ def gen_grad_history(rng, length):
     return [("expr", ("raw", t, al)) for t, al in hist]
 
 
+def torch_grad_histories():
+    """the gradient family on the torch backend: a gradient repeated at the same tensor, stored results re-read"""
+    L_ = lambda t, al: ("expr", ("raw", t, al))
+    out = []
+    out.append([L_('f::{+/x*x}', ['f']), L_('a::[1.0 2.0 3.0]', ['a']), L_('f:>a', []), L_('f:>a', []), L_('f:>a', []),
+                L_('a', []), L_('a*2', []), L_('g::f:>a', ['g']), L_('h::f:>a', ['h']), L_('g', []), L_('h', []), L_('a', [])])
+    out.append([L_('f::{+/x*x}', ['f']), L_('f:>[1.0 2.0 3.0]', []), L_('f:>[1.0 2.0 3.0]', []), L_('f:>[1.0 2.0 3.0]', []),
+                L_('a::[0.5 1.5]', ['a']), L_('a∇f', []), L_('a∇f', []), L_('a', []), L_('b::a', ['b']), L_('f:>b', []),
+                L_('f:>a', []), L_('b', []), L_('a∂f', []), L_('a', [])])
+    out.append([L_('w::1.5', ['w']), L_('b::0.5', ['b']), L_('g::{(w*w)+b*b}', ['g']), L_('g:>[w b]', []), L_('g:>[w b]', []),
+                L_('w', []), L_('b', []), L_('c::[1 2 3]', ['c']), L_('{+/x*x}:>c', []), L_('{+/x*x}:>c', []), L_('c', []),
+                L_('d::[[1.0 2.0] [3.0 4.0]]', ['d']), L_('{+/,/x*x}:>d', []), L_('{+/,/x*x}:>d', []), L_('d', [])])
+    return out
+
+
 def gen_module_history(rng, length):
     """open, define, close, define same-named globals, re-open the same module, close, read (model grammar)"""
     names = ["a", "b"]
@@ -1128,6 +1149,15 @@ def scripted_histories():
     out.append([L_('a::1.5', ['a']), L_('b::0.5', ['b']), L_('g::{(a*a)+b*b}', ['g']), L_('g:>[a b]', []), L_('a', []),
                 L_('b', []), L_('[a b]∂g', []), L_('a', []), L_('c::[[1.0 2.0] [3.0 4.0]]', ['c']), L_('c∇{+/,/x*x}', []),
                 L_('c', []), L_('c∇{+/x*x}', []), L_('c', []), L_('d::g:>[a b]', ['d']), L_('a', [])])
+    # module-private names that are string prefixes of each other / of globals, in both definition orders
+    out.append([L_('n::3', ['n']), L_('v::[1 2 3 4]', ['v']), L_('n', []), L_('.module(:stat)', ['stat']),
+                L_('nrm::{x%+/x}', ['nrm']), L_('vmax::{|/x}', ['vmax']), L_('.module(0)', []), L_('n', []), L_('n+1', []),
+                L_('vmax([3 9 4])', []), L_('v', []), L_('+/v', [])])
+    out.append([L_('.module(:geo)', ['geo']), L_('rad::10', ['rad']), L_('r::2', ['r']), L_('.module(0)', []), L_('r', []),
+                L_('rad', []), L_('r+rad', [])])
+    out.append([L_('.module(:geo)', ['geo']), L_('r::2', ['r']), L_('rad::10', ['rad']), L_('.module(0)', []), L_('r', []),
+                L_('rad', []), L_('ab::7', ['ab']), L_('.module(:m1)', ['m1']), L_('abc::1', ['abc']), L_('a::5', ['a']),
+                L_('.module(0)', []), L_('ab', []), L_('a', []), L_('abc', [])])
     # re-opening a module must not change what a name evaluates to
     out.append([("module", "m1"), A_("b", lit_int(1)), A_("f", ("fn", op2("arith:plus", var("x"), var("b")))), ("module", None), A_("b", lit_int(50)),
                 E_(var("b")), ("module", "m1"), ("module", None), E_(var("b")), A_("b", lit_int(7)), E_(var("b")),
@@ -1158,13 +1188,13 @@ def top_verb(st):
     return e[1] if e[0] in ("op1", "op2") else e[0]
 
 
-def run_history(ctx, stmts, drv, label, probes=False):
+def run_history(ctx, stmts, drv, label, probes=False, backend=None):
     """returns True if nothing was reported; an exception out of the real code's data or out of the harness's
     own decoding of it is reported with the history as replay, never raised"""
     import traceback
     g0 = process_state()
     try:
-        return _run_history(ctx, stmts, drv, label, probes)
+        return _run_history(ctx, stmts, drv, label, probes, backend)
     except common.Infra:
         raise
     except Exception as e:
@@ -1176,10 +1206,10 @@ def run_history(ctx, stmts, drv, label, probes=False):
         restore_process_state(g0)
 
 
-def _run_history(ctx, stmts, drv, label, probes):
+def _run_history(ctx, stmts, drv, label, probes, backend=None):
     from klongpy import KlongInterpreter
-    A = KlongInterpreter()
-    C = KlongInterpreter()
+    A = KlongInterpreter(backend=backend)
+    C = KlongInterpreter(backend=backend)
     model = drv is not None
     if model:
         drv.ask("reset")
@@ -1255,18 +1285,33 @@ def _run_history(ctx, stmts, drv, label, probes):
         #      that name was assigned in between
         M = None if A._module is None else str(A._module)
         res = {}
-        for n in NAMES:
+        from klongpy.core import KGSym
+        frame_values = {}
+        for d in user_frames(A):
+            for kk, vv in d.items():
+                if not str(kk).startswith("."):
+                    frame_values.setdefault(base_of(kk), []).append(vv)
+        for n in sorted(set(NAMES) | set(frame_values)):
             if n == "x" or n in MODS:       # call-frame argument; module-name symbols bind to themselves per module
                 continue
             try:
-                from klongpy.core import KGSym
-                res[n] = canon(A._context[KGSym(n if M is None else f"{n}`{M}")])
+                rv = A._context[KGSym(n if M is None else f"{n}`{M}")]
+                res[n] = canon(rv)
             except KeyError:
                 res[n] = ("U",)
+                continue
+            # ---- oracle 7: a name evaluates to the value of a variable OF THAT NAME (global or module-private),
+            #      never to the value of a differently named one
+            if not nested_open and not any(rv is vv or veq(res[n], canon(vv)) for vv in frame_values.get(n, [])):
+                ctx.oracle_fail(f"resolution-foreign:{verb}", dict(case, name=n, module=M or "-"),
+                                "the value of a variable named " + n + ": " +
+                                ", ".join(fmt(canon(vv)) for vv in frame_values.get(n, [])) or "none",
+                                fmt(res[n]), f"`{n}` evaluates to the value of a variable with another name")
+                return False
         if M in seen_resolution and not nested_open:
             old_res, old_snap = seen_resolution[M]
             for n in res:
-                if veq(res[n], old_res[n]) or res[n][0] == "D":
+                if n not in old_res or veq(res[n], old_res[n]) or res[n][0] == "D":
                     continue
                 touched = any(base_of(k) == n and (k not in old_snap or k not in sA or not veq(old_snap[k], sA[k]))
                               for k in set(old_snap) | set(sA))
@@ -1467,6 +1512,18 @@ def _run(ctx):
             run_history(ctx, h, drv, "history-module")
             if s < 1:
                 ctx.sample(dict(kind="history-locals", texts=[stmt_text(x) for x in h]))
+        try:
+            import torch  # noqa: F401
+            have_torch = True
+        except Exception:
+            have_torch = False
+            ctx.bump("torch-unavailable")
+        if have_torch:
+            for h in torch_grad_histories():
+                run_history(ctx, h, None, "scripted-torch", backend="torch")
+            for s in range(10 if quick else 150):
+                h = gen_grad_history(ctx.rng, ctx.rng.randrange(4, 10))
+                run_history(ctx, h, None, "history-grad-torch", backend="torch")
         for s in range(80 if quick else 1200):
             h = gen_grad_history(ctx.rng, ctx.rng.randrange(4, 10 if quick else 14))
             run_history(ctx, h, None, "history-grad")
@@ -1502,7 +1559,8 @@ def replay(ctx, case):
     c = case.get("case", case)
     try:
         run_history(ctx, [unjson(s) for s in c["history"]], drv, c.get("kind", "replay"),
-                    probes=c.get("kind") in ("history-numeric", "scripted"))
+                    probes=c.get("kind") in ("history-numeric", "scripted"),
+                    backend="torch" if "torch" in str(c.get("kind")) else None)
     finally:
         if drv:
             drv.close()
